@@ -147,6 +147,18 @@ def gen_assembly(rng):
                 f = rows[-1]
                 rows.append(["F", f[1], f[3] + 1, f[3] + 1 + rng.randint(0, 9), f[4], []])  # abutting
         scs.append([f"sc{si}", rows])
+    if len(scs) >= 2 and rng.random() < 0.12:
+        # the lines of one scaffold come in two blocks, those of another in between (concatenated / unsorted AGP)
+        k = rng.randrange(len(scs) - 1)
+        rows = scs[k][1]
+        cut = next((i for i in range(1, len(rows)) if rows[i][0] == "F" and rows[i - 1][0] == "F"), None) or next((i for i in range(1, len(rows)) if rows[i][0] == "F"), None)
+        if cut:
+            head, tail = rows[:cut], rows[cut:]
+            while head and head[-1][0] == "G":
+                head.pop()
+            if head and tail:
+                scs[k][1] = head
+                scs.insert(k + 2, [scs[k][0], tail])
     return scs
 
 
